@@ -35,9 +35,14 @@ def handleParFor (toks : List String) : Option String := do
 def handleModal (toks : List String) : Option String := do
   let keys ← argNats toks "keys"; let freqs ← argInts toks "freqs"
   if keys.length ≠ freqs.length then none
-  match findModalClass (keys.zip freqs) with
+  let m := keys.zip freqs
+  match findModalClass m with
   | none => some "panic"
-  | some k => some s!"ok {k}"
+  | some k =>
+    -- the statement promises no particular tie-break: with tied maxima only the frequency of the
+    -- returned class is compared
+    let f := ((m.find? (·.1 == k)).map (·.2)).getD (-1)
+    if (m.filter (·.2 == f)).length > 1 then some s!"ok tie max={f}" else some s!"ok {k}"
 
 /-- `nbargmax classes= jll=` (`jll[c][i]`, f64 bit patterns) -/
 def handleNb (toks : List String) : Option String := do
@@ -48,9 +53,15 @@ def handleNb (toks : List String) : Option String := do
   if classes.length ≠ jll.length then none
   let n := match jll with | [] => 0 | r :: _ => r.length
   if jll.any (·.length ≠ n) then none
-  match nbPredict (classes.zip jll) n with
+  let tbl := classes.zip jll
+  match nbPredict tbl n with
   | none => some "panic"
-  | some ps => some s!"ok {showNats ps}"
+  | some ps =>
+    -- a sample whose maximum is attained by several classes is shown as `t` (any of them is allowed)
+    let toks := ps.zipIdx.map fun (c, i) =>
+      let v := (((tbl.find? (·.1 == c)).map (·.2)).getD []).getD i 0
+      if (tbl.filter fun e => e.2.getD i 0 == v).length > 1 then "t" else toString c
+    some s!"ok {",".intercalate toks}"
 
 /-- `labels t= a=<rows> b=<single column>`: rows of a `t`-column target matrix -/
 def handleLabels (toks : List String) : Option String := do
@@ -93,6 +104,32 @@ def handleHier (toks : List String) : Option String := do
   | none => some "panic"
   | some ls => some s!"ok {showNats ls}"
 
+def showWord (w : List Nat) : String := ".".intercalate (w.map toString)
+
+/-- `vocab docs=<token ids per document> lo= hi= minabs= maxabs= stop=<words> cap=none|k rev=0|1`:
+`CountVectorizer::fit` on documents given as token-id lists (a word = its token list, ordered like
+the strings the harness builds from fixed-width tokens).  The per-document hash set is handed to
+the model in first-occurrence order (`rev=0`) or reversed (`rev=1`) — the theorems say the order
+cannot matter.  Answer: the learned (word, document frequency) pairs sorted by word. -/
+def handleVocab (toks : List String) : Option String := do
+  let docs ← argNats2 toks "docs"
+  let lo ← argNat toks "lo"; let hi ← argNat toks "hi"
+  let minabs ← argNat toks "minabs"; let maxabs ← argNat toks "maxabs"
+  let stop ← argNats2 toks "stop"
+  let cap ← (match arg toks "cap" with
+    | some "none" => some none
+    | some s => (parseNat s).map some
+    | none => none)
+  let rev ← argNat toks "rev"
+  if rev > 1 then none
+  -- ParamGuard::check_ref of CountVectorizerParams (n-gram boundaries)
+  if lo = 0 ∨ hi = 0 ∨ hi < lo then some "err" else
+  let sets := docs.map fun d =>
+    let s := (ngrams d lo hi).eraseDups
+    if rev = 1 then s.reverse else s
+  let v := sortByKey (fitVocabulary sets minabs maxabs stop cap)
+  some s!"ok n={v.length} vocab={showList (fun e => showWord e.1 ++ "=" ++ toString e.2) v}"
+
 def handle (toks : List String) : String :=
   let r := match toks with
     | "parfor" :: rest => handleParFor rest
@@ -100,6 +137,7 @@ def handle (toks : List String) : String :=
     | "nbargmax" :: rest => handleNb rest
     | "labels" :: rest => handleLabels rest
     | "hier" :: rest => handleHier rest
+    | "vocab" :: rest => handleVocab rest
     | _ => none
   r.getD "bad-op"
 
